@@ -194,7 +194,7 @@ VDERIVE = os.path.join(ENGINE, "vderive")
 
 def ensure_vderive(cfg):
     """cfg like 'tc-u-dev', 'sm-f-rel'"""
-    be, rt, prof = cfg.split("-")
+    be, rt, prof = cfg.split("-")[:3]
     tdir = os.path.join(VDERIVE, "target", cfg)
     key = f"vderive-{cfg}"
     if key not in _built:
@@ -203,6 +203,8 @@ def ensure_vderive(cfg):
             feats.append("sm")
         if rt == "f":
             feats.append("forbid_unsafe")
+        if cfg.endswith("-t"):
+            feats.append("trace")
         cmd = ["cargo", "build", "--offline", "-q", "--target-dir", tdir]
         if prof == "rel":
             cmd.append("--release")
